@@ -445,7 +445,8 @@ class SubRoutine(GlobalValue):
         for block in unreachable:
             # Important! Loop over successors first, since last instruction
             # determines the successors:
-            for successor in block.successors:
+            # (both branches of a conditional jump may target one block)
+            for successor in dict.fromkeys(block.successors):
                 self.logger.debug("updating successor %s", successor)
                 for phi in successor.phis:
                     self.logger.debug("updating phi %s", phi)
@@ -1313,10 +1314,13 @@ class JumpBase(FinalInstruction):
         self._block_map[name].references.add(self)
 
     def delete(self):
-        """Clear references"""
+        """Clear uses and references"""
+        super().delete()
         while self._block_map:
             _, block = self._block_map.popitem()
-            block.references.remove(self)
+            # Both branches of a conditional jump may target one block:
+            if block not in self._block_map.values():
+                block.references.remove(self)
 
     @property
     def targets(self):
